@@ -100,7 +100,9 @@ class C01(Plugin):
             "isindex/image, doctypes incl. quirks), nested markup; x document / fragment with 49 containers x scripting "
             "x namespaceHTMLElements; trees compared by direct traversal of minidom (attributes sorted, text joined)")
     trusted_base = ["coq/Model/TC.v + TCdom.v: hand model of html5parser.py's 23 phases and of the DOM tree builder "
-                    "(hash-pinned), which doubles as the reference the implementation is compared with",
+                    "(hash-pinned), which doubles as the reference the implementation is compared with; cross-checked against "
+                    "56 hand-derived WHATWG trees (tools/props/c01_whatwg_witnesses.json) and four independent audits "
+                    "(audit/*.md) -- deviations from the standard that neither found remain possible",
                     "coq/Spec/TreeTables.v: fixed copy of the tree-construction tables",
                     "tools/trees.py traversal of minidom"]
 
